@@ -569,3 +569,12 @@ CHECKS["C11"]["theorems"] += [RX + n for n in ["reachable_gens_errors", "reachab
 CHECKS["C12"]["manifest_note"] = CHECKS["C12"]["manifest_note"].replace("Root::reinit and the thread-local SSR root (what makes renders independent of history) are NOT modelled:",
     "Root::reinit IS modelled since (Model/Reactive.reinit, theorems in Props/C04Reinit: one live node afterwards, fresh keys, invariants; compared with the real RootHandle::dispose by two-generation programs of the reactive engine); the thread-local SSR roots around it are not:")
 CHECKS["C10"]["classes"] = CHECKS["C10"]["classes"] + ["batch-missed-run"]
+
+# --- repair D23 (dispose loops until the node holds nothing): Props/C04Orphans
+CHECKS["C04"]["lean_modules"] = CHECKS["C04"]["lean_modules"] + ["SycVerif.Props.C04Orphans"]
+CHECKS["C04"]["theorems"] += [RX + n for n in ["C04_disposeRest_drains", "C04_disposeRest_noop", "disposeRest_inv", "C04_dispose_leaves_no_child",
+    "C04_dispose_leaves_no_child_of_alive", "C04_dispose_keeps_noOrphan", "execStmt_noOrphan", "C04_reachable_noOrphan",
+    "C04_dispose_leaves_no_child_reachable", "C04_teardown_born_node_disposed", "C04_noLoop_leaves_orphan", "C04_leaves_no_child_needs_hypothesis"]]
+CHECKS["C04"]["status"] += ("; no orphans (Props/C04Orphans, repair D23): in EVERY reachable state every live node that has an owner has a LIVE owner "
+    "(C04_reachable_noOrphan: the live nodes are exactly those owned by live scopes), disposing a node leaves no live node owned by it, for arbitrary cleanups; "
+    "false without the loop of the repair (C04_noLoop_leaves_orphan)")
